@@ -19,7 +19,8 @@
 (* A remote transaction is  <<data, n>> ; data = [c, s, x]: content class  *)
 (* of the message it delivers, set of validators whose signatures it       *)
 (* carries, corruption ("none" = the exact bridge-contract encoding).      *)
-(* Evidence = [t, tx, st]: t "tx"/"err", st receipt status.                *)
+(* Evidence = [t, tx, st, rg]: t "tx"/"err", st receipt status, rg rest of  *)
+(* the receipt; validators agree only on evidence equal in every component.*)
 (* Properties (C07): SuccessOnlyIfExactEncoding, NoSecondUse,              *)
 (* EffectsAtMostOnce, FailedOrForeignRemovesWithoutEffects.                *)
 (***************************************************************************)
@@ -60,7 +61,7 @@ Quorum(S) == 3 * Tot(S) >= 2 * Total
 
 LiveSnap == IF live = 0 THEN 1 ELSE 2        \* snapshot that is live on the chain
 NoTx == <<[c |-> <<"", 0, 0>>, s |-> {}, x |-> "none"], 0>>
-ErrProof == [t |-> "err", tx |-> NoTx, st |-> ""]
+ErrProof == [t |-> "err", tx |-> NoTx, st |-> "", rg |-> 0]
 
 Msg(kind, retries, tid) == [kind |-> kind, sigs |-> <<>>, ev |-> Empty, retries |-> retries, pad |-> 0, errd |-> FALSE, tid |-> tid]
 
@@ -149,8 +150,10 @@ DataOf(of, k, corr) ==
         s |-> IF IsUsc(msgs[of].kind) THEN {} ELSE FirstK(msgs[of].sigs, k),
         x |-> IF k = 0 /\ ~IsUsc(msgs[of].kind) /\ corr = "none" THEN "k0" ELSE corr]   \* no signature at all is not a prefix
 
-Evidence(v, m, t, of, k, corr, st, n) ==
-  LET e == IF t = "err" THEN ErrProof ELSE [t |-> "tx", tx |-> <<DataOf(of, k, corr), n>>, st |-> st] IN
+\* rg: any other content of the receipt the validator reports (gas used, logs); evidence is identical only if
+\* transaction, receipt status AND the rest of the receipt are identical
+Evidence(v, m, t, of, k, corr, st, n, rg) ==
+  LET e == IF t = "err" THEN ErrProof ELSE [t |-> "tx", tx |-> <<DataOf(of, k, corr), n>>, st |-> st, rg |-> rg] IN
   /\ IF t = "tx" /\ ~CanBuild(of, k, corr)
      THEN UNCHANGED <<msgs, txs>> /\ res' = "nobuild"
      ELSE /\ txs' = IF t = "tx" THEN Put(txs, TxKey(of, k, corr), DataOf(of, k, corr)) ELSE txs
